@@ -799,6 +799,13 @@ fn replay(u: &Universe, path: &std::path::Path) -> ! {
             let mut st = DStats::default();
             eval_damage(&w, &regs, mu, &mut st)
         }
+        Some("huge") => {
+            let (size, what, enc) = (r["size"].as_u64().unwrap_or(0), r["what"].as_str().unwrap_or("").to_string(), r["encoding"].as_str().unwrap_or("").to_string());
+            huge_roundtrips(true)
+                .0
+                .into_iter()
+                .find(|f| f.replay["size"].as_u64() == Some(size) && f.replay["what"].as_str() == Some(what.as_str()) && f.replay["encoding"].as_str() == Some(enc.as_str()))
+        }
         _ => {
             eprintln!("unknown replay part");
             std::process::exit(2)
